@@ -71,3 +71,37 @@ def prepare_component_driver():
     gen_adapter.write_all(pairs, os.path.join(COMP_SRC, "gen"),
                           include_fmt='concat!(env!("EQLOG_OUT_DIR"), "/comp-driver/src/{theory}.eql.rs")')
     vlib.cargo_build(["comp-driver"], timeout=7200)
+
+
+GENP_IN = os.path.join(vlib.WORK, "genp_in")
+GENP_OUT = os.path.join(vlib.WORK, "genp_out")
+GENP_DIR = os.path.join(vlib.HARNESS, "gen-driver", "src", "gen")
+
+
+def prepare_generated(programs):
+    """programs: {name: source text}; compiles them in module mode, builds gen-driver over them.
+    Returns ({name: (sig, stages)}, {name: reason}) - programs outside the supported fragment of the
+    reference front end or rejected by the compiler are skipped with a reason."""
+    vlib.cargo_build(["eqlogc"])
+    shutil.rmtree(GENP_IN, ignore_errors=True)
+    shutil.rmtree(GENP_OUT, ignore_errors=True)
+    os.makedirs(GENP_IN)
+    out, skipped, pairs = {}, {}, []
+    for n, text in sorted(programs.items()):
+        try:
+            sig = eql.Sig(eql.parse(text), n)
+            stages = eql.denote(sig)
+        except eql.ParseError as e:
+            skipped[n] = "reference front end: " + str(e)
+            continue
+        with open(os.path.join(GENP_IN, n + ".eql"), "w") as f:
+            f.write(text)
+        out[n] = (sig, stages)
+    r = vlib.run([os.path.join(vlib.BIN, "eqlogc"), GENP_IN, GENP_OUT], timeout=1800)
+    if r.returncode != 0:
+        raise vlib.ToolError(f"the compiler rejects a generated program that the reference accepts (rc={r.returncode}): {r.stderr[-1500:]}")
+    for n in sorted(out):
+        pairs.append((out[n][0], os.path.join(GENP_OUT, n + ".eql.rs")))
+    gen_adapter.write_all(pairs, GENP_DIR)
+    vlib.cargo_build(["gen-driver"], timeout=7200)
+    return out, skipped
